@@ -314,6 +314,9 @@ def run(scn_wrap, docs_out):
             kw['errors'] = shared_errs
         elif m['errs'] == 'own':
             kw['errors'] = [openrpc.Error(code=2001, message='first error')] if is_rpc else [E2001]
+        elif m['errs'] == 'own2':
+            kw['errors'] = ([openrpc.Error(code=2001, message='first error'), openrpc.Error(code=2002, message='second error')]
+                            if is_rpc else [E2001, E2002])
         if m['tags'] == 't1':
             kw['tags'] = [openrpc.Tag(name='t1')] if is_rpc else ['t1']
         if m['cpref'] == 'P_' and not is_rpc:
@@ -326,30 +329,48 @@ def run(scn_wrap, docs_out):
             f = (openrpc.annotate(**kw) if is_rpc else openapi.annotate(**kw))(f)
         user_objs.append({'errors': kw.get('errors'), 'tags': kw.get('tags'), 'meta': getattr(f, '__pjrpc_meta__', None)})
         methods_map['' if m['ep'] == 'root' else '/api'].append(Method(f, m['fn'] if m['name'] == 'own' else m['name'], context='ctx' if m['fn'] == 'f3' else None))
-    ex = extractor(scn['extractor'])
-    if is_rpc:
-        spec = openrpc.OpenRPC(info=openrpc.Info(title='t', version='1'), schema_extractor=ex[0] if ex else None)
-    else:
-        spec = openapi.OpenAPI(info=openapi.Info(title='t', version='1'), openapi='3.1.0' if scn['kind'] == 'openapi31' else '3.0.3',
-                               schema_extractors=ex, error_http_status_map={2001: 400} if scn.get('statusmap') == 'map' else {})
+    def build_spec():
+        ex = extractor(scn['extractor'])
+        if is_rpc:
+            return openrpc.OpenRPC(info=openrpc.Info(title='t', version='1'), schema_extractor=ex[0] if ex else None)
+        return openapi.OpenAPI(info=openapi.Info(title='t', version='1'), openapi='3.1.0' if scn['kind'] == 'openapi31' else '3.0.3',
+                               schema_extractors=ex, error_http_status_map={2001: 400, 2002: 400} if scn.get('statusmap') == 'map' else {})
+    spec = build_spec()
     path = '/v1' if scn['prefix'] == 'none' else '/rpc'
     ev = []
+    order = []      # registration order = scenario order
+    counters = {'': 0, '/api': 0}
+    for m in scn['methods']:
+        k = '' if m['ep'] == 'root' else '/api'
+        order.append((k, methods_map[k][counters[k]]))
+        counters[k] += 1
     for g in range(3):
+        if scn.get('plan') == 'shrink' and g == 1:
+            k0, m0 = order[0]
+            registry = {'': [], '/api': []}
+            registry[k0].append(m0)
+        else:
+            registry = methods_map
         before = snapshot(user_objs)
         try:
-            raw = spec.schema(path=path, methods_map=methods_map)
+            raw = spec.schema(path=path, methods_map=registry)
         except Exception as e:
             ev.append({'ev': 'GenerateFailed', 'exc': type(e).__name__})
             break
         heap_same = snapshot(user_objs) == before
         try:
+            fresh_same = json.dumps(build_spec().schema(path=path, methods_map=registry), cls=specs.JSONEncoder, sort_keys=True) == \
+                json.dumps(raw, cls=specs.JSONEncoder, sort_keys=True)
+        except Exception:
+            fresh_same = False
+        try:
             doc = json.loads(json.dumps(raw, cls=specs.JSONEncoder))
             json_ok = True
         except (TypeError, ValueError):
-            ev.append({'ev': 'Generate', 'entries': [], 'json_ok': False, 'meta_ok': False, 'refs_closed': False, 'heap_same': heap_same})
+            ev.append({'ev': 'Generate', 'entries': [], 'json_ok': False, 'meta_ok': False, 'refs_closed': False, 'heap_same': heap_same, 'fresh_same': fresh_same})
             continue
         entries = project_openrpc(doc, scn) if is_rpc else project_openapi(doc, scn, path)
-        e = {'ev': 'Generate', 'entries': entries, 'json_ok': json_ok, 'meta_ok': None, 'refs_closed': None, 'heap_same': heap_same}
+        e = {'ev': 'Generate', 'entries': entries, 'json_ok': json_ok, 'meta_ok': None, 'refs_closed': None, 'heap_same': heap_same, 'fresh_same': fresh_same}
         docs_out.append((e, {'kind': scn['kind'], 'doc': doc}))
         ev.append(e)
     return {'scn': scn_wrap, 'ev': ev}
